@@ -56,12 +56,18 @@ type auditItem struct {
 }
 
 type output struct {
-	YieldSites  int      `json:"yield_sites"`
-	MapSites    int      `json:"map_sites"`
-	Globals     int      `json:"globals"`
-	SyncSeams   int      `json:"sync_seams"`
-	WriteYields int      `json:"write_yield_sites"`
-	Packages    []string `json:"packages"`
+	YieldSites  int `json:"yield_sites"`
+	MapSites    int `json:"map_sites"`
+	Globals     int `json:"globals"`
+	SyncSeams   int `json:"sync_seams"`
+	WriteYields int `json:"write_yield_sites"`
+	RaceVars    int `json:"race_tracked_variables"`
+	TouchSites  int `json:"access_sites"`
+	// RaceExemptPkgs: packages using synchronisation the simulator does not
+	// model (channels, WaitGroup, Cond, atomics, goroutines): accesses to their
+	// package-level variables are not judged by the race detector.
+	RaceExemptPkgs []string `json:"race_exempt_pkgs"`
+	Packages       []string `json:"packages"`
 	// SyncPkgs: packages (relative to the module) that use synchronisation
 	// primitives or atomics: writes to their package-level state may be
 	// synchronised, so I-GLOBAL does not treat them as races.
@@ -105,6 +111,8 @@ func main() {
 	sort.Slice(pkgs, func(i, j int) bool { return pkgs[i].PkgPath < pkgs[j].PkgPath })
 	var out output
 	yieldID, mapID := 0, 0
+	raceIDs := map[types.Object]int{}
+	var raceNames []string
 	for _, pkg := range pkgs {
 		if excluded(pkg.PkgPath) {
 			continue
@@ -121,6 +129,20 @@ func main() {
 		out.Packages = append(out.Packages, pkg.PkgPath)
 		var globals []string
 		pkgSync := false
+		relPkg := strings.TrimPrefix(pkg.PkgPath, "github.com/gogpu/naga/")
+		if pkg.Types != nil {
+			scope := pkg.Types.Scope()
+			names := scope.Names()
+			sort.Strings(names)
+			for _, n := range names {
+				v, ok := scope.Lookup(n).(*types.Var)
+				if !ok || n == "_" || syncType(v.Type()) {
+					continue
+				}
+				raceIDs[v] = len(raceNames) + 1
+				raceNames = append(raceNames, relPkg+"."+n)
+			}
+		}
 		files := append([]*ast.File(nil), pkg.Syntax...)
 		sort.Slice(files, func(i, j int) bool {
 			return pkg.Fset.File(files[i].Pos()).Name() < pkg.Fset.File(files[j].Pos()).Name()
@@ -207,10 +229,13 @@ func main() {
 					}
 				case *ast.BlockStmt:
 					writeYields(x.List, tf, &patches, &yieldID, &out, posOf, curFunc, &usesSimrt)
+					touches(x.List, tf, &patches, pkg.TypesInfo, raceIDs, &out, &usesSimrt)
 				case *ast.CaseClause:
 					writeYields(x.Body, tf, &patches, &yieldID, &out, posOf, curFunc, &usesSimrt)
+					touches(x.Body, tf, &patches, pkg.TypesInfo, raceIDs, &out, &usesSimrt)
 				case *ast.CommClause:
 					writeYields(x.Body, tf, &patches, &yieldID, &out, posOf, curFunc, &usesSimrt)
+					touches(x.Body, tf, &patches, pkg.TypesInfo, raceIDs, &out, &usesSimrt)
 				case *ast.GoStmt:
 					out.Audit = append(out.Audit, auditItem{"go", posOf(x.Pos()), "go statement"})
 				case *ast.SelectStmt:
@@ -308,6 +333,11 @@ func main() {
 				fmt.Fprintf(&b, "\tsimrt.RegisterGlobal(%q, &%s)\n", strings.TrimPrefix(pkg.PkgPath, "github.com/gogpu/naga/")+"."+g, g)
 				out.Globals++
 			}
+			for i, n := range raceNames {
+				if strings.HasPrefix(n, relPkg+".") && !strings.Contains(strings.TrimPrefix(n, relPkg+"."), ".") {
+					fmt.Fprintf(&b, "\tsimrt.RegisterRaceVar(%d, %q)\n", i+1, n)
+				}
+			}
 			b.WriteString("}\n")
 			dir := filepath.Dir(pkg.GoFiles[0])
 			if err := os.WriteFile(filepath.Join(dir, "zz_simrt_globals.go"), []byte(b.String()), 0o644); err != nil {
@@ -317,6 +347,25 @@ func main() {
 	}
 	out.YieldSites = yieldID
 	out.MapSites = mapID
+	out.RaceVars = len(raceNames)
+	exempt := map[string]bool{}
+	for _, a := range out.Audit {
+		switch a.Kind {
+		case "go", "select", "chan-send", "chan-recv", "chan-range", "sync":
+			exempt[filepath.Dir(strings.SplitN(a.Pos, ":", 2)[0])] = true
+		case "pkg":
+			if strings.HasPrefix(a.Text, "sync/atomic.") {
+				exempt[filepath.Dir(strings.SplitN(a.Pos, ":", 2)[0])] = true
+			}
+		}
+	}
+	for d := range exempt {
+		if d == "." {
+			d = "github.com/gogpu/naga"
+		}
+		out.RaceExemptPkgs = append(out.RaceExemptPkgs, d)
+	}
+	sort.Strings(out.RaceExemptPkgs)
 	js, _ := json.MarshalIndent(out, "", " ")
 	if err := os.WriteFile(*outPath, js, 0o644); err != nil {
 		die(err)
@@ -370,6 +419,149 @@ func writeYields(list []ast.Stmt, tf *token.File, patches *[]patch, yieldID *int
 		*patches = append(*patches, patch{off: tf.Offset(st.Pos()), text: fmt.Sprintf("simrt.Yield(%d);", *yieldID)})
 		out.Yields = append(out.Yields, site{ID: *yieldID, Kind: "write", Pos: posOf(st.Pos()), Func: curFunc()})
 		out.WriteYields++
+		*usesSimrt = true
+	}
+}
+
+// syncType: the variable is itself a synchronisation object (or an atomic).
+func syncType(t types.Type) bool {
+	for {
+		if p, ok := t.(*types.Pointer); ok {
+			t = p.Elem()
+			continue
+		}
+		break
+	}
+	if n, ok := t.(*types.Named); ok && n.Obj().Pkg() != nil {
+		switch n.Obj().Pkg().Path() {
+		case "sync", "sync/atomic":
+			return true
+		}
+	}
+	return false
+}
+
+// touches puts simrt.Touch(id, write) in front of every statement of a block
+// that mentions a package-level variable in its own expressions (nested
+// statement bodies and function literals are handled where they are listed).
+func touches(list []ast.Stmt, tf *token.File, patches *[]patch, info *types.Info, ids map[types.Object]int, out *output, usesSimrt *bool) {
+	for _, st := range list {
+		inner := st
+		for {
+			if l, ok := inner.(*ast.LabeledStmt); ok {
+				inner = l.Stmt
+				continue
+			}
+			break
+		}
+		reads, writes := map[int]bool{}, map[int]bool{}
+		root := func(e ast.Expr) *ast.Ident {
+			for {
+				switch x := e.(type) {
+				case *ast.ParenExpr:
+					e = x.X
+				case *ast.SelectorExpr:
+					// pkg.Var or var.field
+					if id, ok := x.X.(*ast.Ident); ok {
+						if _, isPkg := info.Uses[id].(*types.PkgName); isPkg {
+							return x.Sel
+						}
+					}
+					e = x.X
+				case *ast.IndexExpr:
+					e = x.X
+				case *ast.IndexListExpr:
+					e = x.X
+				case *ast.StarExpr:
+					e = x.X
+				case *ast.SliceExpr:
+					e = x.X
+				case *ast.Ident:
+					return x
+				default:
+					return nil
+				}
+			}
+		}
+		markWrite := func(e ast.Expr) {
+			if id := root(e); id != nil {
+				if n, ok := ids[info.Uses[id]]; ok {
+					writes[n] = true
+				}
+			}
+		}
+		var scan func(n ast.Node)
+		scan = func(n ast.Node) {
+			if n == nil {
+				return
+			}
+			ast.Inspect(n, func(m ast.Node) bool {
+				switch x := m.(type) {
+				case *ast.BlockStmt, *ast.FuncLit:
+					return false
+				case *ast.CallExpr:
+					if id, ok := x.Fun.(*ast.Ident); ok && len(x.Args) > 0 {
+						if _, isBuiltin := info.Uses[id].(*types.Builtin); isBuiltin {
+							switch id.Name {
+							case "delete", "clear", "copy":
+								markWrite(x.Args[0])
+							}
+						}
+					}
+				case *ast.Ident:
+					if n, ok := ids[info.Uses[x]]; ok {
+						reads[n] = true
+					}
+				}
+				return true
+			})
+		}
+		switch x := inner.(type) {
+		case *ast.AssignStmt:
+			for _, l := range x.Lhs {
+				markWrite(l)
+			}
+			scan(x)
+		case *ast.IncDecStmt:
+			markWrite(x.X)
+			scan(x)
+		case *ast.ExprStmt, *ast.ReturnStmt, *ast.SendStmt, *ast.DeclStmt, *ast.DeferStmt, *ast.GoStmt:
+			scan(x)
+		case *ast.IfStmt:
+			scan(x.Init)
+			scan(x.Cond)
+		case *ast.ForStmt:
+			scan(x.Init)
+			scan(x.Cond)
+			scan(x.Post)
+		case *ast.RangeStmt:
+			scan(x.X)
+		case *ast.SwitchStmt:
+			scan(x.Init)
+			scan(x.Tag)
+		case *ast.TypeSwitchStmt:
+			scan(x.Init)
+			scan(x.Assign)
+		}
+		if len(reads) == 0 && len(writes) == 0 {
+			continue
+		}
+		var keys []int
+		for k := range reads {
+			keys = append(keys, k)
+		}
+		for k := range writes {
+			if !reads[k] {
+				keys = append(keys, k)
+			}
+		}
+		sort.Ints(keys)
+		var b strings.Builder
+		for _, k := range keys {
+			fmt.Fprintf(&b, "simrt.Touch(%d,%v);", k, writes[k])
+			out.TouchSites++
+		}
+		*patches = append(*patches, patch{off: tf.Offset(st.Pos()), text: b.String()})
 		*usesSimrt = true
 	}
 }
